@@ -3,7 +3,14 @@
 #![allow(dead_code, unused_macros, unused_imports, clippy::all)]
 use std::sync::Arc;
 pub struct Fragment { pub id: u64 }
-pub struct Manifest { pub fragments: Arc<Vec<Fragment>>, pub max_fragment_id: Option<u32> }
+/// stands for Arc<Vec<Fragment>>: a fixed array + length exposing the two methods the text calls (is_empty, iter);
+/// CBMC models heap Vecs byte-wise, which made the Vec version 50x slower (measured)
+pub struct Frags { pub items: [Fragment; 8], pub n: usize }
+impl Frags {
+    pub fn is_empty(&self) -> bool { self.n == 0 }
+    pub fn iter(&self) -> std::slice::Iter<'_, Fragment> { self.items[..self.n].iter() }
+}
+pub struct Manifest { pub fragments: Frags, pub max_fragment_id: Option<u32> }
 include!("gen/maxfrag.rs");
 
 #[cfg(kani)]
@@ -11,27 +18,26 @@ mod proofs {
     use super::*;
     /// C05 clause "fragment ids ... not above the recorded maximum" + the high-water mark never moves down
     #[kani::proof]
-    #[kani::unwind(5)]
+    #[kani::unwind(10)]
     fn max_fragment_id_is_a_high_water_mark() {
-        let n: usize = kani::any(); kani::assume(n <= 3);
-        let ids: [u32; 3] = kani::any();
-        let mut v = Vec::new();
-        for i in 0..3 { if i < n { v.push(Fragment { id: ids[i] as u64 }); } }
+        let n: usize = kani::any(); kani::assume(n <= 8);
+        let ids: [u32; 8] = kani::any();
+        let f = |i: usize| Fragment { id: ids[i] as u64 };
         let old: Option<u32> = if kani::any() { Some(kani::any()) } else { None };
-        let mut m = Manifest { fragments: Arc::new(v), max_fragment_id: old };
+        let mut m = Manifest { fragments: Frags { items: [f(0), f(1), f(2), f(3), f(4), f(5), f(6), f(7)], n }, max_fragment_id: old };
         m.update_max_fragment_id();
         if n == 0 {
             assert!(m.max_fragment_id == old, "empty table changes the recorded maximum");
         } else {
             let mx = m.max_fragment_id.unwrap();
-            for i in 0..3 { assert!(i >= n || mx >= ids[i], "a fragment id is above the recorded maximum"); }
+            for i in 0..8 { assert!(i >= n || mx >= ids[i], "a fragment id is above the recorded maximum"); }
             if let Some(o) = old { assert!(mx >= o, "recorded maximum moved down (ids could be reused)"); }
-            assert!(Some(mx) == old || (0..3).any(|i| i < n && mx == ids[i]), "recorded maximum is an invented number");
+            assert!(Some(mx) == old || (0..8).any(|i| i < n && mx == ids[i]), "recorded maximum is an invented number");
         }
         // reader side agrees with what was recorded
         if m.max_fragment_id.is_some() { assert!(m.max_fragment_id() == m.max_fragment_id.map(|x| x as u64)); }
         else { assert!(m.max_fragment_id() == None); }
-        kani::cover!(n == 3 && m.max_fragment_id != old);
-        kani::cover!(n == 3 && m.max_fragment_id == old);
+        kani::cover!(n == 8 && m.max_fragment_id != old);
+        kani::cover!(n == 8 && m.max_fragment_id == old);
     }
 }
